@@ -260,8 +260,10 @@ func runC17(c *Ctx) {
 	r.Rule("R2", "001 adopts line.Target() (ReNick(me.Nick, target) when tracking, store to Config.Me.Nick otherwise); 433 calls Nick(NewNick(Args[1])) on every path and adopts it only when Args[1] is the current nick; the untracked NICK handler stores Args[0] under line.Nick == current nick; the tracked one calls ReNick(line.Nick, Args[0]) unconditionally; only listed conditions guard these effects")
 	r.Rule("R3", "DefaultNewNick returns old[:len(old)-1] + string(c) with c < 0x80 on every arm (one byte: same length, same prefix)")
 	r.Rule("R4", "with tracking on Me() is the tracker's record, so it follows a rename only if the tracker's ReNick re-keys everything on every successful path (shared with C12.R3)")
+	r.Rule("R6", "the nick handlers compare Line.Nick with the client's nick, so the parser must hand over every nick unaltered: the nick!user@host split is positional only (shared with C01.R10) - a nick alphabet check in the parser would make the client deaf to changes of a nick such as the backtick one its own generator yields")
 	r.Rule("R5", "the built-in handlers that keep the nick current (internal table: 001, 433, NICK) stay registered for the life of the client: no Remover obtained by registering an internal-table handler is ever invoked, whichever way tracking is switched")
 	c.trackerRules(map[string]string{"R3": "R4"})
+	c.positionalSplitRule("R6")
 	if g, _ := c.Client.Members["intHandlers"].(*ssa.Global); r.Anchor("R5", "intHandlers table and (*Conn).handle", g != nil && c.Func(c.Client, "(*Conn).handle") != nil) {
 		nRegs, bad := c.permanentRegistrations(g, c.Func(c.Client, "(*Conn).handle"))
 		r.Floor("R5", "registration calls fed from the internal table", nRegs, 1)
@@ -526,6 +528,8 @@ func runC18(c *Ctx) {
 	r.Rule("R4", "the ping goroutine is spawned exactly under PingFreq > 0; it pings on each tick of a ticker of period PingFreq")
 	r.Rule("R5", "the registration lines are the first the new connection sends: every successful connect starts from a newly made outbound (and inbound) queue on every path, so nothing queued during or before an outage precedes or duplicates PASS/NICK/USER (shared with C07.R4)")
 	c.freshQueuesRule("R5")
+	r.Rule("R6", "with tracking on, NICK and USER are sent from the tracker's own record, which keeps nick, ident and real name for the life of the client: that record is stored only while the tracker is constructed (shared with C12.R7), so no reset on reconnect can blank the ident or name")
+	c.trackerRules(map[string]string{"R7": "R6"})
 	// ---- R1
 	h := a.IntTable["REGISTER"]
 	r.Anchor("R1", "REGISTER handler", h != nil)
@@ -1016,6 +1020,8 @@ func runC19(c *Ctx) {
 	r.Rule("R4", "request splitting: every element read from the argument list is used (concatenated, measured, stored or passed on) on every path before the next iteration or the return (no element is read and then dropped)")
 	r.Rule("R5", "the CAP handler passes every LS, ACK and NAK reply - whatever its capability list, an empty one included - to its sub-handler: the only conditions that decide whether a sub-handler is reached are argument-count tests and the comparison of the subcommand parameter with LS / ACK / NAK")
 	c.capDispatchRule("R5")
+	r.Rule("R6", "SASL data is encoded as a whole: every argument of Authenticate in the AUTHENTICATE exchange is the constant \"+\" or base64 EncodeToString of the mechanism's complete response (the result of Sasl.Next or the stored initial response), never of a slice or other part of it (per-chunk encoding yields padding inside the stream)")
+	c.saslEncodingRule("R6")
 	capFn := c.Func(c.Client, "(*Conn).Cap")
 	authFn := c.Func(c.Client, "(*Conn).Authenticate")
 	r.Anchor("R1", "(*Conn).Cap and (*Conn).Authenticate", capFn != nil && authFn != nil)
@@ -1901,4 +1907,82 @@ func (c *Ctx) serverStoreOK(s *ssa.Store) (ok bool, why string, keeps bool) {
 	c.portCover[0] = c.portCover[0] || sawSSL
 	c.portCover[1] = c.portCover[1] || sawPlain
 	return
+}
+
+// saslEncodingRule: arguments of Authenticate other than the mechanism name
+// are "+" or EncodeToString(whole response).
+func (c *Ctx) saslEncodingRule(rule string) {
+	r, a := c.R, c.A
+	authFn := c.Func(c.Client, "(*Conn).Authenticate")
+	h := a.IntTable["AUTHENTICATE"]
+	if !r.Anchor(rule, "(*Conn).Authenticate and the AUTHENTICATE handler", authFn != nil && h != nil) {
+		return
+	}
+	region := c.Closure([]*ssa.Function{h}, func(from *ssa.Function, e Edge) bool {
+		return e.Kind == EdgeCall && !e.Site.Common().IsInvoke() && e.Callee.Package() == c.Client && e.Callee != authFn
+	})
+	n := 0
+	whole := func(v ssa.Value) (bool, string) {
+		for _, o := range c.Origins(v) {
+			switch t := o.(type) {
+			case *ssa.Extract:
+				if call, ok := t.Tuple.(*ssa.Call); ok && call.Call.IsInvoke() && t.Index == 0 {
+					continue // result of the mechanism (Sasl.Next / Start)
+				}
+				return false, "encodes " + o.String()
+			case *ssa.UnOp:
+				if fv, _ := loadedField(t); fv != nil && fv.Pkg() == c.Client.Pkg {
+					continue // the stored initial response
+				}
+				return false, "encodes " + o.String()
+			case *ssa.Parameter:
+				continue
+			default:
+				return false, "encodes " + o.String() + " (a part or a transformation of the response)"
+			}
+		}
+		return true, "whole response"
+	}
+	for _, fn := range region.Order {
+		if !c.InModuleFn(fn) {
+			continue
+		}
+		for _, cs := range CallSites(fn) {
+			if cs.Common().StaticCallee() != authFn || len(cs.Common().Args) < 2 {
+				continue
+			}
+			n++
+			okAll, why := true, ""
+			for _, o := range c.Origins(cs.Common().Args[1]) {
+				if k, isK := constString(o); isK && k == "+" {
+					why += "\"+\" "
+					continue
+				}
+				// chunks of the encoded text are fine (that is what the spec asks for): look through slices of it
+				for i := 0; i < 4; i++ {
+					sl, isSl := o.(*ssa.Slice)
+					if !isSl {
+						break
+					}
+					os := c.Origins(sl.X)
+					if len(os) != 1 {
+						break
+					}
+					o = os[0]
+				}
+				call, isC := o.(*ssa.Call)
+				if !isC || calleeName(&call.Call) != "(*encoding/base64.Encoding).EncodeToString" {
+					okAll, why = false, "argument is "+o.String()+", not EncodeToString(response)"
+					continue
+				}
+				if okW, w := whole(call.Call.Args[1]); !okW {
+					okAll, why = false, w
+				} else {
+					why += "EncodeToString(whole response) "
+				}
+			}
+			r.Add(rule, fmt.Sprintf("sasl-encoding:%s#%d", c.FuncKey(fn), n), c.InstrPos(cs), c.FuncKey(fn), "SASL data is the base64 of the complete response", okAll, why)
+		}
+	}
+	r.Floor(rule, "Authenticate calls in the AUTHENTICATE exchange", n, 2)
 }
